@@ -28,8 +28,12 @@ CLAIMS = {
              "values of the class's constructor domain (Capacities, CapacityHints, Labels, ReservationInfo, StructuralInfo, Location, "
              "Flags, Tags, User/Measurement/LayoutData, Gateway, PathInfo/ERO, MaintenanceInfo, legacy type:value tuples).",
         note="json.dumps/json.loads assumed mutually inverse and canonical under sort_keys (assumed library contract); list-valued "
-             "fields are opaque values for the classes that only store them; Labels and Tags list forms are bounded (length <= 2) and "
-             "counted as bounded, not proved. Gateway, PathInfo/ERO, MaintenanceInfo and the legacy type:value tuples (string values: all strings; integer values: known finding KF-C03-1) have their own contracts.",
+             "fields are opaque values for the classes that only store them; Tags given as a list or decoded from text are proved for "
+             "EVERY list length by the loop rule (pyvc.interp.gen_loop: generic element + witness element, a trusted induction "
+             "schema whose side conditions are checked per path); the forms of length <= 2 (and argument tuples) are kept as "
+             "bounded refutation aids and counted as bounded, not proved; the hop lists of a path are opaque values in the proved "
+             "contract and real lists of <= 2 hops in a bounded companion. Unknown keys: any JSON scalar value, also a key named like "
+             "a method of the class. Gateway, PathInfo/ERO, MaintenanceInfo and the legacy type:value tuples (string values: all strings; integer values: known finding KF-C03-1) have their own contracts.",
         technique="contract-based deductive verification: sidecar contracts on the real codec functions, per-path VCs from the real AST, "
                   "z3 + cvc5; json as an assumed inverse pair; counter-models replayed on the real code",
         design_ref="DESIGN.md section 3 C03"),
@@ -260,8 +264,12 @@ CLAIMS = {
              "Capacities._set_fields, Tags._check, the three JSON blob classes (size limit and JSON validity), set_name of the five "
              "sliver classes and set_boot_script; the validator tables are pinned.",
         note="re semantics: translation of CPython's own parse tree to SMT regexes, sampled against the real engine; minterm "
-             "abstraction of the non-ASCII alphabet; int(str) exact on ASCII digit strings and uninterpreted elsewhere; list forms "
-             "bounded to length <= 2 (counted as bounded); model-element property assignment (fim.user) reduces to these setters "
+             "abstraction of the non-ASCII alphabet; int(str) exact on ASCII digit strings and uninterpreted elsewhere; list-valued "
+             "labels and tag lists of EVERY length are proved with the loop rule (pyvc.interp.gen_loop: the loop body is executed on "
+             "a generic element and on a witness element; side conditions -- no heap write in a completing iteration, no "
+             "break/return, loop-bound names dead afterwards, copy statements `x.append(elem)` into an empty list -- are checked "
+             "per path; the induction over the list is the rule's, a trusted schema listed in trusted_base); the forms of length "
+             "<= 2 are kept as bounded refutation aids (counted as bounded); model-element property assignment (fim.user) reduces to these setters "
              "and is not separately proved.",
         technique="contract-based deductive verification: two-sided validator contracts (accept <=> documented domain) on the real "
                   "functions, regex/string VCs discharged by z3 with cvc5 taking z3's unknowns; callers verified against the callee contract",
